@@ -158,9 +158,7 @@ class Interp:
         if kind == K_INT or kind == K_PTR:
             if t is int: return v
             if t is float: return f2i(v) if size == 8 else f32_2i(v)
-            if t is Node and v.sort == 'R':
-                raise Unsupported('integer load of a symbolic real at %s' % self.where())
-            return v
+            return v   # a symbolic real loaded as i64 is carried as an opaque bit pattern (only moves are allowed on it)
         if kind == K_DOUBLE:
             if t is float: return v
             if t is int: return i2f(v)
@@ -1001,8 +999,10 @@ class Interp:
         elif op.startswith('bitcast_'):
             if op == 'bitcast_double_int':
                 if t is float: return f2i(v)
+                if t is Node and v.sort == 'R': return v
             elif op == 'bitcast_int_double':
                 if t is int: return i2f(v)
+                if t is Node and v.sort == 'R': return v
             elif op == 'bitcast_float_int':
                 if t is float: return f32_2i(v)
             elif op == 'bitcast_int_float':
